@@ -4,11 +4,14 @@ TIER=${1:-quick}
 cd /verif
 for d in seeded/*/; do
   n=$(basename $d)
-  out=$(/venv/bin/python tools/seedcheck.py $d --tier $TIER 2>&1)
-  echo "$n $(echo "$out" | /venv/bin/python -c "
-import sys,json
+  /venv/bin/python tools/seedcheck.py $d --tier $TIER > /tmp/seedall-one.json 2>&1
+  /venv/bin/python - "$n" <<'E'
+import sys, json
 try:
-    o=json.loads(sys.stdin.read(), strict=False); print('detected=%s nofail=%s demo_with=%s demo_without=%s'%(o.get('detected'),o.get('no_failing_input'),o.get('demo_with_change_rc'),o.get('demo_without_change_rc')))
-except Exception as e: print('ERR',e)
-")"
+    s = open('/tmp/seedall-one.json').read()
+    o = json.loads(s[s.index('{'):], strict=False)
+    print(sys.argv[1], 'detected=%s nofail=%s demo_with=%s demo_without=%s' % (o.get('detected'), o.get('no_failing_input'), o.get('demo_with_change_rc'), o.get('demo_without_change_rc')))
+except Exception as e:
+    print(sys.argv[1], 'ERR', e)
+E
 done
